@@ -445,3 +445,8 @@ Fixpoint render_pieces (A : list (list N) -> option (list N)) (ps : list piece) 
   | PText s :: r => match render_pieces A r with Some x => Some (s ++ x) | None => None end
   | PAttr p :: r => match A p, render_pieces A r with Some a, Some x => Some (a ++ x) | _, _ => None end
   end.
+
+(* which rule decides that a non-integral rational is rendered as the division `(N.0 / D.0)` (fact regenerated from
+   _float_division_expr): both operands below 2^1023 (code before the repair of F-FLOAT-OPERAND-ROUNDING), or both operands exactly
+   representable doubles (repaired code) *)
+Inductive frule : Type := DivIfBelowLimit | DivIfExactOperands.
